@@ -78,7 +78,7 @@ func digestB64(s string) string { return base64.RawURLEncoding.EncodeToString(sh
 // hashTable is the oracle table sent to the model: SHA-256 of every preimage it may ask about.
 func hashTable(k *Case) string {
 	pre := []string{k.Token}
-	if _, th, ok := account(k.Acct); ok {
+	if _, th, ok := account(k.reqAcct()); ok {
 		pre = append(pre, k.Token+"."+th)
 	}
 	items := make([]string, len(pre))
